@@ -119,7 +119,8 @@ func streamTextFile(s *stream.Stream, c *streamCtx, op string) error {
 				ol, _ := splitText(out)
 				impl = strings.TrimRight(proto.B(changed)+" "+proto.EncLines(canonGo(ol)), " ")
 			}
-			s.Case(strings.TrimRight("cleanfile "+proto.EncLines(lines), " "), impl, "", changed)
+			s.Case(strings.TrimRight("cleanfile "+proto.EncLines(lines), " "), impl,
+				strings.TrimRight("judge:cleanfile "+proto.EncLines(lines), " ")+" | "+impl, changed)
 			return nil
 		}
 		ms := mains
@@ -142,7 +143,8 @@ func streamTextFile(s *stream.Stream, c *streamCtx, op string) error {
 				impl = strings.TrimRight(proto.B(changed)+" "+proto.B(hi)+" "+proto.EncLines(canonGo(ol)), " ")
 			}
 		}
-		s.Case(strings.TrimRight(fmt.Sprintf("patchfile %s %s %s", proto.B(isMain), proto.B(withImport), proto.EncLines(lines)), " "), impl, "", fn != "")
+		s.Case(strings.TrimRight(fmt.Sprintf("patchfile %s %s %s", proto.B(isMain), proto.B(withImport), proto.EncLines(lines)), " "), impl,
+			strings.TrimRight(fmt.Sprintf("judge:patchfile %s %s %s", proto.B(isMain), proto.B(withImport), proto.EncLines(lines)), " ")+" | "+impl, fn != "")
 		return nil
 	}
 	var rec func(prefix []textToken) error
